@@ -19,6 +19,10 @@
 //!       sc <slot> pause|resume|stop|seekby <k>|seekto <k>|vol <k>|rate <k>
 //!                               a StaticSoundHandle method (instant tweens; seconds; −6·k dB; playback rate k)
 //!       cb … additionally       snd=<state>:<position bits>,… (per slot, `-` = no sound) amp=<right channel of the last frame>
+//!       sthook                  a streaming sound over a logging in-memory `Decoder` (1 Hz, 1 000 000 frames), NOT played: its
+//!                               decoder loop is stepped by hand (`verif_hooks::streaming::split` + `HScheduler::run`), no thread
+//!       stcmd by|to <k>         StreamingSoundHandle::seek_by(k s) / seek_to(k s)
+//!       ststep                  one decoder step → seeks=<decoder seeks made in this step>
 //! Oracles: a command is applied in the next callback, once; of a burst only the last; a command issued
 //! before the component's first callback is applied in that callback; a streaming seek takes effect;
 //! real static sounds (`sound_*_next_callback`): after the callback that follows an interval, EVERY command
@@ -54,6 +58,32 @@ pub fn gen(rng: &mut Rng, n: usize, thorough: bool, stats: &mut Stats) -> Vec<St
 			out.push("stseek".into());
 			out.push("stcheck".into());
 			stats.hit(&format!("streaming_{}", kind));
+			continue;
+		}
+		if case % 12 == 7 {
+			// the decoder loop stepped by hand: bursts of seek_by / seek_to between two steps, steps without commands
+			stats.hit("streaming_hook");
+			out.push("sthook".into());
+			for _ in 0..(3 + rng.below(8)) {
+				match rng.below(5) {
+					0 | 1 => {
+						for _ in 0..(1 + rng.below(2)) {
+							out.push(format!("stcmd by {}", 1 + rng.below(400_000)));
+						}
+					}
+					2 | 3 => {
+						for _ in 0..(1 + rng.below(2)) {
+							out.push(format!("stcmd to {}", rng.below(800_000)));
+						}
+					}
+					_ => {}
+				}
+				if rng.chance(2, 3) {
+					out.push("ststep".into());
+				}
+			}
+			out.push("ststep".into());
+			out.push("ststep".into());
 			continue;
 		}
 		if case % 3 != 0 {
@@ -280,6 +310,7 @@ struct St {
 	s: Option<StaticSoundHandle>,
 	c: Option<ClockHandle>,
 	stream: Option<(StreamingSoundHandle<()>, bool)>,
+	hook: Option<HookStream>,
 	/// frames the static sound has played (it starts in the callback that picks it up)
 	s_played: Vec<u64>,
 	s_started: bool,
@@ -344,6 +375,7 @@ pub fn run(ops: &[String]) -> Vec<String> {
 			s: None,
 			c: None,
 			stream: None,
+			hook: None,
 			s_played: vec![],
 			s_started: false,
 			vol_pending: None,
@@ -753,9 +785,99 @@ fn op(st: &mut St, line: &str, detail: &str, out: &mut Out) -> String {
 			}
 			format!("seek={}", got as u8)
 		}
+		"sthook" => {
+			let log = Arc::new(std::sync::Mutex::new(vec![]));
+			let data = StreamingSoundData::from_decoder(LogDecoder { cursor: 0, seeks: log.clone() });
+			match kira::verif_hooks::streaming::split(data) {
+				Ok((sound, handle, sched)) => {
+					let seen = log.lock().unwrap().len();
+					st.hook = Some(HookStream { _sound: sound, handle, sched, log, seen, by: None, to: None });
+					"ok".into()
+				}
+				Err(()) => "bad-op".into(),
+			}
+		}
+		"stcmd" => {
+			let Some(h) = st.hook.as_mut() else { return "skip".into() };
+			let k = pu(tok[2]);
+			match tok[1] {
+				"by" => {
+					h.handle.seek_by(k as f64);
+					h.by = Some(k);
+				}
+				"to" => {
+					h.handle.seek_to(k as f64);
+					h.to = Some(k);
+				}
+				_ => return "bad-op".into(),
+			}
+			"ok".into()
+		}
+		"ststep" => {
+			let Some(h) = st.hook.as_mut() else { return "skip".into() };
+			if h.sched.run().is_err() {
+				return "decoder-error".into();
+			}
+			let made: Vec<usize> = h.log.lock().unwrap()[h.seen..].to_vec();
+			h.seen += made.len();
+			// C07 "a streaming sound's seek and loop-region commands [take effect exactly once] at the decoder's next
+			// step; if several commands of the same kind are issued … only the last is applied, and none is applied
+			// late or twice; commands of different kinds … do not interfere": the decoder seeks made in THIS step are
+			// exactly the targets of the seek commands issued since the previous step - the last seek_by (relative to
+			// the playback position, 0 s: the sound is not being played) and the last seek_to, in whatever order -
+			// and a step that follows an interval without seek commands makes no seek at all. (1 Hz: frame = second;
+			// no loop region, targets far from the end: nothing else makes this decoder seek.)
+			let mut want: Vec<usize> = h.by.take().into_iter().chain(h.to.take()).map(|k| k as usize).collect();
+			let mut got = made.clone();
+			want.sort();
+			got.sort();
+			if got != want {
+				out.oracle_fail(
+					"streaming_seeks_once_at_next_step",
+					format!("{} :: decoder seeks in this step {:?}, seek targets issued since the last step {:?}", detail, made, want),
+				);
+			}
+			format!("seeks={}", made.len())
+		}
 		"readers" => readers_from_source(tok[1]),
 		_ => "bad-op".into(),
 	}
+}
+
+/// a 1 Hz decoder that decodes one frame at a time and records every seek it is asked to make
+struct LogDecoder {
+	cursor: usize,
+	seeks: Arc<std::sync::Mutex<Vec<usize>>>,
+}
+impl Decoder for LogDecoder {
+	type Error = ();
+	fn sample_rate(&self) -> u32 {
+		1
+	}
+	fn num_frames(&self) -> usize {
+		1_000_000
+	}
+	fn decode(&mut self) -> Result<Vec<Frame>, ()> {
+		self.cursor += 1;
+		Ok(vec![Frame::from_mono(0.125)])
+	}
+	fn seek(&mut self, index: usize) -> Result<usize, ()> {
+		self.cursor = index;
+		self.seeks.lock().unwrap().push(index);
+		Ok(index)
+	}
+}
+/// a streaming sound whose decoder loop is stepped by hand
+struct HookStream {
+	_sound: Box<dyn kira::sound::Sound>,
+	handle: StreamingSoundHandle<()>,
+	sched: kira::verif_hooks::streaming::HScheduler<()>,
+	log: Arc<std::sync::Mutex<Vec<usize>>>,
+	/// seeks of the log already attributed to earlier steps
+	seen: usize,
+	/// seek commands issued since the last step (last write wins per kind)
+	by: Option<u64>,
+	to: Option<u64>,
 }
 
 /// The command readers a component reads in its per-callback function, in textual order, extracted
